@@ -21,13 +21,15 @@ RULE = ('cases = well-formed instrumented chart + input history + a second rando
         'realised three ways - API calls in order A, API calls in order B, YAML text in order B - '
         'and the three runs must have equal signatures step by step (consumed event, transition '
         'ids, exit/entry lists, sent events, executed-code log, counter v) or raise the same '
-        'exception class at the same step; the same case is run twice in-process; a batch of '
+        'exception class at the same step (a quarter of the cases run with contracts on and some '
+        'conditions false: the object and condition of the ContractError belong to the signature); '
+        'the same case is run twice in-process; a batch of '
         'cases is re-executed in 5 sub-processes with PYTHONHASHSEED in {0,1,2,random,random} '
         'and the SHA-1 of the run signature must agree. Non-trivial = the orders differ on the '
         'children list of an orthogonal state exited during the run, or on two transitions fired '
         'in one step; distinct = sha1(chart, order B, history).')
 ASSUMPTIONS = ['PYTHONHASHSEED quantifier reduced to 5 seeds per batch',
-               'contracts off; guards are table look-ups']
+               'guards are table look-ups']
 MIX = (('sibling', 20), ('other', 20), ('orthin', 20), ('anc', 20), ('desc', 5), ('hist', 5),
        ('internal', 10))
 HIST_MIX = (('sibling', 25), ('other', 15), ('orthin', 5), ('anc', 15), ('desc', 5), ('hist', 30),
@@ -65,12 +67,33 @@ def strategy(tier):
         return {'spec': spec, 'ops': ops,
                 'keysB': {s['name']: k for s, k in zip(spec['states'], keys)},
                 'permB': list(perm)}
-    return st.one_of(cases(), cases(), histories_over_orthogonal())
+    @st.composite
+    def with_failing_contracts(draw):
+        # contracts on, several conditions false: which ContractError ends a step (class, object,
+        # condition) belongs to the run
+        spec = draw(gen.charts(max_states=16 if big else 12, mix=MIX, p_sends=0.2,
+                               p_orth_root=0.5, orth_weight=4))
+        spec = draw(gen.with_contracts(spec, p=0.7))
+        ops = draw(gen.histories(spec, 5, 14, p_all=0.5))
+        ncond = sum(len(o.get('c_' + k) or []) for o in spec['states'] + spec['transitions']
+                    for k in ('pre', 'post', 'inv'))
+        false = draw(st.lists(st.integers(1, max(1, ncond)), max_size=8, unique=True))
+        n = len(spec['states'])
+        keys = draw(st.lists(st.integers(0, 1000), min_size=n, max_size=n, unique=True))
+        perm = draw(st.permutations(list(range(len(spec['transitions'])))))
+        return {'spec': spec, 'ops': ops,
+                'keysB': {s['name']: k for s, k in zip(spec['states'], keys)},
+                'permB': list(perm), 'contracts': True, 'cv_false': false}
+    return st.one_of(cases(), cases(), histories_over_orthogonal(), with_failing_contracts())
 
 
-def run_sig(spec, sc, ops):
+def run_sig(spec, sc, ops, contracts=False, cv_false=()):
     """list of per-step signatures of one run"""
-    d = Drive(spec, sc=sc)
+    d = Drive(spec, sc=sc, ignore_contract=not contracts)
+    if contracts:
+        ncond = sum(len(o.get('c_' + k) or []) for o in spec['states'] + spec['transitions']
+                    for k in ('pre', 'post', 'inv'))
+        d.ctx['cv'].update({c: c not in cv_false for c in range(1, ncond + 1)})
     sig = []
     for op in ops:
         if op[0] == 'q':
@@ -82,6 +105,12 @@ def run_sig(spec, sc, ops):
             sig.append({'result': rec['result'], 'exc': rec['exc'],
                         'config': rec['config_after'], 'log': [list(x) for x in rec['log']],
                         'v': rec['v_after']})
+            e = rec['exc_obj']
+            if contracts and e is not None:
+                obj = getattr(e, 'obj', None)
+                sig[-1]['error'] = [getattr(obj, 'name', None) or probes.tid_of(obj)
+                                    if obj is not None else None,
+                                    str(getattr(e, 'condition', ''))[:60]]
     return sig
 
 
@@ -98,7 +127,7 @@ def first_diff(a, b):
 
 def build_all(case):
     from sismic.io import import_from_yaml
-    spec = probes.instrument(case['spec'])
+    spec = probes.instrument(case['spec'], contracts=True if case.get('contracts') else None)
     specB = reorder(spec, case['keysB'], case['permB'])
     return spec, specB, {
         'apiA': lambda: to_statechart(spec),
@@ -110,7 +139,8 @@ def build_all(case):
 def signature_hash(case):
     from ..cli import sha
     spec, specB, builders = build_all(case)
-    return sha([run_sig(spec, builders[k](), case['ops']) for k in sorted(builders)])
+    kw = {'contracts': bool(case.get('contracts')), 'cv_false': case.get('cv_false') or ()}
+    return sha([run_sig(spec, builders[k](), case['ops'], **kw) for k in sorted(builders)])
 
 
 def oracle(case):
@@ -119,12 +149,13 @@ def oracle(case):
         return xproc_oracle([case])
     spec, specB, builders = build_all(case)
     viol, labels, keys = [], {}, []
-    sigs = {k: run_sig(spec, b(), case['ops']) for k, b in builders.items()}
+    kw = {'contracts': bool(case.get('contracts')), 'cv_false': case.get('cv_false') or ()}
+    sigs = {k: run_sig(spec, b(), case['ops'], **kw) for k, b in builders.items()}
     # the second run re-uses the very Statechart object of the first one: executing a statechart
     # must not change it
     scA = builders['apiA']()
-    sigs['apiA'] = run_sig(spec, scA, case['ops'])
-    again = run_sig(spec, scA, case['ops'])
+    sigs['apiA'] = run_sig(spec, scA, case['ops'], **kw)
+    again = run_sig(spec, scA, case['ops'], **kw)
     d = first_diff(sigs['apiA'], again)
     if d:
         viol.append({'prop': PROP, 'kind': 'not-repeatable', 'step': d['step_index'], 'detail': d})
@@ -164,6 +195,11 @@ def oracle(case):
                 for m in s['result']['micro'])
     if multi:
         labels['run with a multi-state default/history entry'] = 1
+    if case.get('contracts'):
+        labels['runs with contracts on and some conditions false'] = 1
+        if any(s.get('error') for s in sigs['apiA']):
+            labels['runs ended a step with a ContractError'] = 1
+            multi = True      # which error is raised may come out of a set: send to the batch
     if not viol:
         if multi and len(_BATCH_HOT) < _BATCH_MAX[0]:
             _BATCH_HOT.append(case)
